@@ -6,6 +6,7 @@ import (
 	"bytes"
 	"encoding/binary"
 	"fmt"
+	"math/big"
 	"runtime"
 	"sort"
 	"strings"
@@ -187,6 +188,13 @@ func c06Inputs(st c06State, thorough bool) (out []c06Input) {
 			}
 			for _, rc := range []uint32{0x50, 0x23456789} {
 				add(fmt.Sprintf("%s:%s:receiver-tag", src, kind), fmt.Sprintf("%s %s with receiver tag %#x", src, kind, rc), c15Retag(g, binary.BigEndian.Uint32(raw[3:]), rc))
+			}
+		}
+		if guessMessageType(g) == msgGuessDHKey {
+			// out-of-range D-H values: must be refused and must not be remembered
+			one := bnFromInt(1)
+			for name, val := range map[string]*big.Int{"0": bnFromInt(0), "1": one, "p-1": new(big.Int).Sub(p, one), "p": new(big.Int).Set(p), "p+1": new(big.Int).Add(p, one)} {
+				add(fmt.Sprintf("%s:DHKEY:dh-out-of-range", src), fmt.Sprintf("%s DHKEY with value %s", src, name), c06Rebuild(append(append([]byte{}, raw[:hl]...), AppendMPI(nil, val)...)))
 			}
 		}
 		if guessMessageType(g) == msgGuessData {
